@@ -139,7 +139,7 @@ def tlc(module, cfg, metadir, env=None, workers=4, timeout=1800, heap='4g', simu
     if env:
         e.update({k: str(v) for k, v in env.items()})
     cmd = ['timeout', str(timeout), 'java', '-XX:+UseParallelGC', '-Xmx' + heap, '-cp', TLA_JAR, 'tlc2.TLC',
-           '-workers', str(workers), '-metadir', metadir, '-cleanup', '-noGenerateSpecTE',
+           '-workers', str(workers), '-metadir', metadir, '-cleanup', '-noGenerateSpecTE', '-checkpoint', '0',
            '-config', cfg]
     if coverage:
         cmd += ['-coverage', '1']
